@@ -620,7 +620,7 @@ def _gen_regions(tier, rng):
             pad = _padding(ft, d, k % 2 == 0)
             lv2 = 'mem' if k % 2 else 'h5'
             k += 1
-            colp = [rng.choice(pool[:2]) for _ in range(d)] + pool + pad[:3]
+            colp = [pool[k % 2]] * d + pool + pad[:3]          # one value d times: multiplicity >= 256
             rng.shuffle(colp)
             yield dict({'op': 'unique', 'ft': ft, 'level': lv2, 'col': colp, 'flags': [1, 1, 1]}, **ex)
             if len(pad) >= d:
@@ -700,6 +700,39 @@ def _gen_regions(tier, rng):
 
 
 def gen(tier, rng):
+    """small scope + malformed stream, then the regions beyond it; the (model-)expensive region cases are spread evenly
+    over the sequence because the model shards are contiguous slices of it."""
+    base = list(_gen_small(tier, rng))
+    heavy, light = [], []
+    for c in _gen_regions(tier, rng):
+        (heavy if _weight(c) > 600 else light).append(c)
+    base += light
+    if not heavy:
+        for c in base:
+            yield c
+        return
+    step = max(1, len(base) // len(heavy))
+    j = 0
+    for i, c in enumerate(base):
+        yield c
+        if i % step == 0 and j < len(heavy):
+            yield heavy[j]
+            j += 1
+    for c in heavy[j:]:
+        yield c
+
+
+def _weight(case):
+    """rough size of a case (bytes / values it carries)"""
+    n = 0
+    for x in case.get('col', []):
+        n += len(x) if isinstance(x, list) else 1
+    for x in (case.get('tests') or []):
+        n += len(x) if isinstance(x, list) else 1
+    return n
+
+
+def _gen_small(tier, rng):
     big = tier == 'thorough'
     A6 = [_cps(s) for s in ALPHA6]
     AB = [_cps(s) for s in ALPHA_BIG]
@@ -809,9 +842,6 @@ def gen(tier, rng):
             tests = [rng.choice(tp) for _ in range(rng.randint(0, 6))]
             yield dict({'op': 'isin', 'ft': ft, 'level': level, 'col': col, 'tests': tests, 'tkind': rng.choice(kinds),
                         'via': rng.choice(['method', 'module'])}, **ex)
-    # ---- regions beyond the small scope: long byte strings, counts >= 256, large test collections, hot sizes
-    for c in _gen_regions(tier, rng):
-        yield c
     # ---- malformed / out-of-domain stream: model vs implementation only
     NUL = [[97, 0], [97], [0], [], [97, 0, 98], [0, 0]]
     for n in range(1, 4):
